@@ -119,6 +119,9 @@ type g2lTarget struct {
 	// derefArgs: callees that dereference their pointer arguments at once: a nil-able local passed to one of them
 	// is passed as the value it points to (GoLite.deref)
 	derefArgs []string
+	// optElems: slices (exprText, e.g. "certResults") whose ELEMENTS are nil-able pointers: `x[i]` is an Option
+	// (the Lean binder is then `List (Option T)`)
+	optElems []string
 }
 
 type g2l struct {
@@ -178,6 +181,11 @@ func (g *g2l) isOpt(e ast.Expr) bool {
 		return g.optField(se.Sel.Name)
 	}
 	if ie, ok := e.(*ast.IndexExpr); ok {
+		for _, f := range g.t.optElems {
+			if f == exprText(ie.X) {
+				return true
+			}
+		}
 		if se, ok := ie.X.(*ast.SelectorExpr); ok {
 			for _, f := range g.t.optMapFields {
 				if f == se.Sel.Name {
@@ -1010,6 +1018,16 @@ func (g *g2l) stmt(o *g2lOut, ind int, s ast.Stmt) {
 					g.fail(s, "var without type")
 				}
 				ty := g2lType(g, vs.Type)
+				if at, isArr := vs.Type.(*ast.ArrayType); isArr {
+					// a slice of pointers listed in optElems: its elements are nil-able
+					if st, ptr := at.Elt.(*ast.StarExpr); ptr {
+						for _, f := range g.t.optElems {
+							if f == n.Name {
+								ty = "(List (Option " + g2lType(g, st.X) + "))"
+							}
+						}
+					}
+				}
 				if _, ptr := vs.Type.(*ast.StarExpr); ptr || g.opt[n.Name] {
 					g.opt[n.Name] = true
 					if !strings.HasPrefix(ty, "(Option") {
